@@ -96,7 +96,7 @@ def adaptors(ctx, rep):
                 ok = t["dest"]["l"] == 0
                 detail = "%s must return the socket's own result" % tag
         rep.check("R6.3", tag, ok, detail, b.loc(), sample={"adaptor": tag, "sends": [callee(t)[0] for _b, t in sends]})
-    if "tokio" in present and ctx.config in ("default", "all"):
+    if "tokio" in present and ctx.config in ("default", "all", "websocket"):
         name = "<insim::net::tokio_impl::websocket::WebsocketStream as tokio::io::async_write::AsyncWrite>::poll_write"
         b = ctx.mir.body(name)
         if b is None:
